@@ -140,7 +140,12 @@ def params_for(draw, cmd, n, pool, wild=False):
     p = {}
     if cmd in ("WeightedSum", "WeightedMean", "FuzzyWeightedUnion"):
         w = draw(st.lists(st.one_of(st.integers(-2, 5), st.integers(-8, 16).map(lambda k: k / 4.0)), min_size=n, max_size=n))
-        if cmd != "WeightedSum" and sum(w) == 0:
+        zero_sum = draw(st.integers(0, 7)) == 0
+        if zero_sum:
+            # weights that cancel exactly: a weighted mean then divides by zero in every cell (all cells missing)
+            w = list(w)
+            w[-1] = w[-1] - sum(w)
+        elif cmd != "WeightedSum" and sum(w) == 0:
             w = list(w)
             w[-1] = w[-1] + 1
         p["Weights"] = w
